@@ -633,10 +633,43 @@ let run_inflight toks =
   "complete=" ^ Stdlib.Buffer.contents comp ^ " bufs=" ^
   Stdlib.String.concat "" (Stdlib.List.map (function InFlight.Freed -> "F" | InFlight.Leaked -> "L" | InFlight.Owned -> "O") !st.InFlight.bufs)
 
+(* swp K<d> P<k>,<exp>,<v> T<k>,<exp> D<k> G<k> S X<k> L<i>,<k> R<i>  (Model.Sweep events)
+   -> <client results joined by ;> final=<k>:<v>:<exp>;... removed=<n> *)
+let run_swp toks =
+  let st = ref Sweep.sinit in
+  let outs = ref [] in
+  Stdlib.List.iter (fun t ->
+      let body = Stdlib.String.sub t 1 (Stdlib.String.length t - 1) in
+      let args = Stdlib.List.map n_of_string (Stdlib.List.filter (fun x -> x <> "") (Stdlib.String.split_on_char ',' body)) in
+      let ev = match t.[0], args with
+        | 'K', [d] -> Sweep.ETick d
+        | 'P', [k; e; v] -> Sweep.EPut (k, e, v)
+        | 'T', [k; e] -> Sweep.ETtl (k, e)
+        | 'D', [k] -> Sweep.EDel k
+        | 'G', [k] -> Sweep.EGet k
+        | 'S', [] -> Sweep.ESample
+        | 'X', [k] -> Sweep.EProc k
+        | 'L', [i; k] -> Sweep.ELazySee (i, k)
+        | 'R', [i] -> Sweep.ELazyRetire i
+        | _ -> failwith ("bad sweep event " ^ t) in
+      let (s', o) = Sweep.sstep !st ev in
+      st := s';
+      (match t.[0], o with
+       | 'G', Sweep.SVal None -> outs := "g:-" :: !outs
+       | 'G', Sweep.SVal (Some v) -> outs := ("g:" ^ string_of_n v) :: !outs
+       | 'T', Sweep.SBool b -> outs := (if b then "t:1" else "t:0") :: !outs
+       | 'D', Sweep.SBool b -> outs := (if b then "d:1" else "d:0") :: !outs
+       | _ -> ())) toks;
+  let tbl = Stdlib.List.sort compare (Stdlib.List.map (fun (k, g) -> (Z.to_int (z_of_n k), g)) !st.Sweep.ss_tbl) in
+  Stdlib.String.concat ";" (Stdlib.List.rev !outs) ^ " final=" ^
+  Stdlib.String.concat ";" (Stdlib.List.map (fun (k, g) -> Stdlib.Printf.sprintf "%d:%s:%s" k (string_of_n g.Sweep.sg_val) (string_of_n g.Sweep.sg_exp)) tbl) ^
+  " n=" ^ string_of_int (Stdlib.List.length tbl) ^
+  " removed=" ^ string_of_int (Stdlib.List.length !st.Sweep.ss_log)
+
 let run_note _ = "note"
 
 let handlers : (string * (string list -> string)) list ref =
-  ref [ ("fs", run_fs); ("open", run_open); ("note", run_note); ("codec", run_codec); ("readdev", run_readdev); ("lww", run_lww); ("monitor", run_monitor); ("cache", run_cache); ("migrate", run_migrate); ("conc", run_conc); ("hist", run_hist); ("pins", run_pins); ("inflight", run_inflight) ]
+  ref [ ("fs", run_fs); ("open", run_open); ("note", run_note); ("codec", run_codec); ("readdev", run_readdev); ("lww", run_lww); ("monitor", run_monitor); ("cache", run_cache); ("migrate", run_migrate); ("conc", run_conc); ("hist", run_hist); ("pins", run_pins); ("inflight", run_inflight); ("swp", run_swp) ]
 
 
 let () =
